@@ -4,13 +4,13 @@
 EXTENDS RedirectSig, Json
 CONSTANT Depth
 VARIABLE hist
-mvars == <<slot, held, wire, last, hist>>
+mvars == <<gen, loaded, slot, held, wire, last, hist>>
 MCInit == Init /\ hist = <<>>
 \* verification steps inside behaviours use the untouched query only (mutations are
 \* enumerated by RedirectQuery.tla)
 BNext == \/ \E e \in Ent, a \in Algs : Obtain(e, a) \/ SignNow(e, a)
-         \/ \E e \in Ent : Sign(e)
-         \/ \E v \in Ent, i \in 1..MaxWire, c \in Ent : Verify(v, i, c, "none")
+         \/ \E e \in Ent : Sign(e) \/ Rekey(e)
+         \/ \E v \in Ent, i \in 1..MaxWire, c \in Certs : Verify(v, i, c, "none")
 Step == Len(hist) < Depth /\ BNext /\ hist' = Append(hist, last')
 Finish == /\ Len(hist) = Depth /\ hist[Len(hist)].op # "End"
           /\ PrintT(<<"CASE", ToJson(hist)>>)
